@@ -343,7 +343,12 @@ static void check_env(const char *const *parent, REPROC_ENV beh, const char *con
   if (beh == REPROC_ENV_EXTEND && parent)
     for (int i = 0; parent[i]; i++) exp[ne++] = parent[i];
   if (extra)
-    for (int i = 0; extra[i]; i++) exp[ne++] = extra[i];
+    for (int i = 0; extra[i]; i++) {
+      // an empty string cannot be told from the end of the block: content is compared up to it,
+      // the bounds of the whole block (every entry is still copied) are the sanitizer's business
+      if (!extra[i][0]) break;
+      exp[ne++] = extra[i];
+    }
   st_env_entries += ne;
   size_t u = 0;
   int i = 0;
@@ -537,6 +542,10 @@ int main(int argc, char **argv)
       ext[i] = own[no++] = e;
     }
     ext[nx] = NULL;
+    if (nx > 1 && rnd() % 10 == 0) {
+      static char empty[1] = "";
+      ext[rnd() % (unsigned) (nx - 1)] = empty;   // the old string stays in own[] and is freed below
+    }
     int mode = (int) (rnd() % 6);
     check_env(np || mode % 2 ? par : NULL, mode < 3 ? REPROC_ENV_EXTEND : REPROC_ENV_EMPTY, mode == 5 ? NULL : ext);
     if (k % 20 == 0) {
